@@ -106,19 +106,43 @@ UNREACHABLE = [
 
 
 def anchored_functions():
-    from t4_geom_convert.Kernel.Surface.SurfaceT4 import SurfaceT4
-    from t4_geom_convert.Kernel.Surface import Duplicates
-    from t4_geom_convert.Kernel.Volume import CellInlining as CI
-    from t4_geom_convert.Kernel.Volume.CellConversion import CellConversion
-    from t4_geom_convert.Kernel.Volume import ConstructVolumeT4 as CV
-    from t4_geom_convert.Kernel.FileHandlers.Writer import WriteT4Geometry as W
-    return [SurfaceT4.__eq__, SurfaceT4.__ne__, SurfaceT4.__hash__,
-            Duplicates.remove_duplicate_surfaces, Duplicates.renumber_surfaces,
-            CI.find_occurrences, CI.extract_subcells,
-            CI.compute_inlining_scores, CI.geometry_size, CI.inline_cells,
-            CI.inline_cells_worker,
-            CellConversion.pot_fill, CellConversion.cell_transform,
-            CellConversion.pot_transform,
-            CV.remove_empty_volumes, CV.remove_unused_volumes,
-            CV.extract_used_surfaces,
-            W.convertMCNPGeometry, W.writeT4Geometry]
+    '''The anchored functions that exist in this working tree.  Resolution is
+    tolerant (coverage is information only): a name that a rewrite removed or
+    renamed is skipped and listed in MISSING.'''
+    import importlib
+    wanted = [
+        ('t4_geom_convert.Kernel.Surface.SurfaceT4', 'SurfaceT4.__eq__'),
+        ('t4_geom_convert.Kernel.Surface.SurfaceT4', 'SurfaceT4.__ne__'),
+        ('t4_geom_convert.Kernel.Surface.SurfaceT4', 'SurfaceT4.__hash__'),
+        ('t4_geom_convert.Kernel.Surface.Duplicates', 'remove_duplicate_surfaces'),
+        ('t4_geom_convert.Kernel.Surface.Duplicates', 'renumber_surfaces'),
+        ('t4_geom_convert.Kernel.Volume.CellInlining', 'find_occurrences'),
+        ('t4_geom_convert.Kernel.Volume.CellInlining', 'extract_subcells'),
+        ('t4_geom_convert.Kernel.Volume.CellInlining', 'compute_inlining_scores'),
+        ('t4_geom_convert.Kernel.Volume.CellInlining', 'geometry_size'),
+        ('t4_geom_convert.Kernel.Volume.CellInlining', 'inline_cells'),
+        ('t4_geom_convert.Kernel.Volume.CellInlining', 'inline_cells_worker'),
+        ('t4_geom_convert.Kernel.Volume.CellConversion', 'CellConversion.pot_fill'),
+        ('t4_geom_convert.Kernel.Volume.CellConversion', 'CellConversion.cell_transform'),
+        ('t4_geom_convert.Kernel.Volume.CellConversion', 'CellConversion.pot_transform'),
+        ('t4_geom_convert.Kernel.Volume.ConstructVolumeT4', 'remove_empty_volumes'),
+        ('t4_geom_convert.Kernel.Volume.ConstructVolumeT4', 'remove_unused_volumes'),
+        ('t4_geom_convert.Kernel.Volume.ConstructVolumeT4', 'extract_used_surfaces'),
+        ('t4_geom_convert.Kernel.FileHandlers.Writer.WriteT4Geometry', 'convertMCNPGeometry'),
+        ('t4_geom_convert.Kernel.FileHandlers.Writer.WriteT4Geometry', 'writeT4Geometry'),
+    ]
+    funcs = []
+    del MISSING[:]
+    for modname, path in wanted:
+        try:
+            obj = importlib.import_module(modname)
+            for part in path.split('.'):
+                obj = getattr(obj, part)
+            getattr(obj, '__func__', obj).__code__
+            funcs.append(obj)
+        except Exception:      # pylint: disable=broad-except
+            MISSING.append(f'{modname}.{path}')
+    return funcs
+
+
+MISSING = []
